@@ -36,6 +36,9 @@ FINDINGS = {
                                        "CeaseVigil runs again; when Destroy returns at once because another request is already destroying, "
                                        "the counter has lost a vigil that belongs to a third request: the drain passes while that request "
                                        "is in flight, the file is deleted, its acknowledged write is gone",
+    "C16-delete-continues-on-closed-instance": "a Delete request goes on deleting its remaining keys on the instance it holds after its own "
+                                               "auto-destroy has closed that instance: the delete is acknowledged, no delete entry reaches "
+                                               "the file, the record is back after re-opening",
     "C16-stop-returns-before-swamps-closed": "GracefulStop returns while swamps are still mapped (their close has not flushed yet): the "
                                              "process exits and acknowledged writes that were only in memory are gone",
     "C16-summon-replaces-closing-instance": "SummonSwamp does not go back to the swamp map after WaitForGracefulClose: it creates and maps a "
@@ -68,6 +71,11 @@ def spec_violated(rep):
                 live[p[1]] = p[2]
             if p[0] == "del" and m.group(2) == "DELETED":
                 live.pop(p[1], None)
+            if p[0] == "delm":
+                sts = line.split(" done ", 1)[1].split()[0].split(",")
+                for kk, ss in zip(p[1:3], sts):
+                    if ss == "DELETED":
+                        live.pop(kk, None)
         if "stuck" in line or line == "hang":
             return "request hangs at `%s`" % op
         m2 = re.match(r"stopped open=(\d+)", line)
@@ -90,7 +98,7 @@ def run(ctx):
     corrs = []
     if K.build_hx(ctx) and K.build_drv(ctx):
         args = ["%s=%s" % (k, facts.get(k, "unknown")) for k in
-                ("destroyRechecksAfterDrain", "listenerReadsTouchUnderLock", "summonTakesVigil", "recreateDropsDeleteMarker", "summonWaitsForUnmap", "stopWaitsUntilClosed", "ceasesVigilOnce")]
+                ("destroyRechecksAfterDrain", "listenerReadsTouchUnderLock", "summonTakesVigil", "recreateDropsDeleteMarker", "summonWaitsForUnmap", "stopWaitsUntilClosed", "ceasesVigilOnce", "deleteRefusesClosedInstance")]
         c = K.correspondence(ctx, "C16", args, timeout=900)
         corrs.append(("C16", args, c))
     else:
